@@ -481,6 +481,31 @@ def gen_motion(rng, text, key=None):
 def gen_prog(rng, text):
     ls = lines_of(text)
     prog = []
+    t = rng.below(10)
+    if ls and t == 0:
+        # sticky column: reach a far column, then walk over lines of different lengths with j/k
+        r = rng.below(len(ls))
+        prog.append(['g', r + 1])
+        prog.append(rng.choice([['m', 0, '$'], ['m', rng.range(1, 30), '|'], ['m', rng.range(1, 12), 'l'], ['m', 0, 'e'], ['m', 2, 'w']]))
+        for _ in range(rng.range(2, 5)):
+            prog.append(['m', rng.choice([0, 0, 1, 2, 3]), rng.choice('jjkkjk+')])
+            if rng.chance(1, 6):
+                prog.append(gen_motion(rng, text))
+        return prog
+    if ls and t == 1:
+        # find sequences: f F t T followed by ; and ,
+        cand = [r for r in range(len(ls)) if len(ls[r]) > 3]
+        if cand:
+            r = rng.choice(cand)
+            prog.append(['g', r + 1])
+            prog.append(['m', rng.below(len(ls[r])), ' '])
+            ch = rng.choice(ls[r])
+            prog.append(['m', rng.choice([0, 0, 1, 2]), rng.choice('fFtT'), ch])
+            for _ in range(rng.range(1, 4)):
+                prog.append(['m', rng.choice([0, 0, 1, 2, 3]), rng.choice(';;,')])
+                if rng.chance(1, 5):
+                    prog.append(['m', 0, rng.choice('hl')])
+            return prog
     if ls and rng.chance(3, 4):
         r = rng.below(len(ls))
         prog.append(['g', r + 1])
